@@ -112,20 +112,17 @@ def strVal : PyVal → Option (Option (List Nat))
   | .str s => some (some s)
   | _ => none       -- raises ValueError (strOpaque is outside the model: treated as an error, never generated)
 
-/-- `IsoName(message, name)`; `none` = it raises (field missing / wrong type) -/
+/-- `IsoName(message, name)`; `none` = it raises (field missing / wrong type).  The numeric parts are
+bits of the 64-bit NAME itself (every bit pattern of a NAME is data); the names come from the decoded fields. -/
 def mkIsoName (m : Msg) (name : Nat) : Option IsoName := do
-  let un ← fieldVal m "uniqueNumber"
   let mc ← (← fieldVal m "manufacturerCode") |> strVal
-  let du ← fieldVal m "deviceInstanceUpper"
-  let dl ← fieldVal m "deviceInstanceLower"
   let df ← (← fieldVal m "deviceFunction") |> strVal
   let dc ← (← fieldVal m "deviceClass") |> strVal
-  let si ← fieldVal m "systemInstance"
   let ig ← (← fieldVal m "industryGroup") |> strVal
   let aa ← (← fieldVal m "arbitraryAddressCapable") |> strVal
-  pure { uniqueNumber := intOr0 un, manufacturer := mc,
-         deviceInstance := (intOr0 du).toNat <<< 3 ||| (intOr0 dl).toNat,
-         deviceFunction := df, deviceClass := dc, systemInstance := intOr0 si, industryGroup := ig,
+  pure { uniqueNumber := ((name % 2097152 : Nat) : Int), manufacturer := mc,
+         deviceInstance := ((name / 4294967296 % 256 : Nat) : Int),
+         deviceFunction := df, deviceClass := dc, systemInstance := ((name / 72057594037927936 % 16 : Nat) : Int), industryGroup := ig,
          arbitrary := aa = some ("Yes".toList.map Char.toNat), name := name }
 
 structure OutMsg where
@@ -199,12 +196,12 @@ def numOf : PyVal → Option Num
   | _ => none
 
 /-- the conversion selected by (quantity, lower-cased requested unit): new unit label and function -/
-def conversion (pq unit : String) : Option (String × (Num → Rat)) :=
+def conversion (pq unit : String) (cur : Option String) : Option (String × (Num → Rat)) :=
   if pq = "TEMPERATURE" then
     (if unit = "c" then some ("C", kelvinToCelsius) else if unit = "f" then some ("F", kelvinToFahrenheit) else none)
   else if pq = "PRESSURE" then
     (if unit = "bar" then some ("Bar", pascalToBar) else if unit = "psi" then some ("PSI", pascalToPsi) else none)
-  else if pq = "ANGLE" then (if unit = "deg" then some ("Deg", radToDegrees) else none)
+  else if pq = "ANGLE" then (if unit = "deg" ∧ cur = some "rad" then some ("Deg", radToDegrees) else none)   -- a few angles are in degrees already
   else if pq = "SPEED" then (if unit = "kts" then some ("kts", mpsToKnots) else none)
   else none
 
@@ -216,7 +213,7 @@ def convertField (units : List (String × String)) (f : Field) : Option Field :=
     match assocGet pq units with       -- a dict: the last entry for a key wins
     | none => some f
     | some u =>
-      match conversion pq u with
+      match conversion pq u f.fmeta.unit with
       | none => some f
       | some (label, fn) =>
         match f.value with
